@@ -607,7 +607,8 @@ func (n *Net) Dial(ctx context.Context, timeout time.Duration, addr string) (net
 	if plan.DialDelay > 0 {
 		n.fire("connect-delay")
 	}
-	dt := time.NewTimer(delay)
+	// the connect completes at an instant of its own (see slot): goroutines woken by the clock never run side by side
+	dt := time.NewTimer(time.Until(n.slot(time.Now().Add(delay))))
 	defer dt.Stop()
 	select {
 	case <-dt.C:
@@ -640,3 +641,12 @@ func (timeoutError) Timeout() bool   { return true }
 func (timeoutError) Temporary() bool { return true }
 
 func (c *Conn) String() string { return fmt.Sprintf("conn#%d(%s)", c.Index, c.Addr) }
+
+// Resolve returns the canonical "ip:port" of an address on this network.
+func (n *Net) Resolve(addr string) (string, error) {
+	ta, err := n.tcpAddr(addr)
+	if err != nil {
+		return "", err
+	}
+	return ta.String(), nil
+}
